@@ -1,4 +1,5 @@
 mod common;
+mod obs;
 mod props;
 mod units;
 
